@@ -62,6 +62,21 @@ def special_inputs():
     toks = full.split(" ")
     for k in range(len(toks)):                    # DEFINE (and everything else) cut off by end of file at each position
         add({"m": " ".join(toks[:k])})
+    # uses of a macro BEFORE its definition, the definition cut off by end of file at every position; dangling $k in the body
+    for full in ("swap a ; swap b ; DEFINE swap <ID> AS x0 := $1 ; y := $0 END DEFINE",
+                 "x := 1 ; twice x ; DEFINE PRIO 7 twice <ID> AS $0 := $0 + $2 ; #0 := $5 END DEFINE"):
+        toks = full.split(" ")
+        first = toks.index("DEFINE")
+        for k in range(first, len(toks) + 1):
+            add({"m": " ".join(toks[:k])})
+    # long, path-like file names (a short name hides a dangling std::string behind the small-string buffer)
+    L1, L2 = "a_rather_long_main_file_name_for_this_test.theo", "library/with/a/long/path/name/included_file.theo"
+    add({L1: "x := 1 ; include"}, L1)
+    add({L1: 'x := 1 ; include "%s" ; y := 2' % L2, L2: "z := 3 ; include"}, L1)
+    add({L1: 'include "%s" include "%s"' % (L2, L2), L2: "include // bare, at the end of an included file"}, L1)
+    add({L1: 'include "%s"' % L2, L2: 'include "%s"' % L1}, L1)
+    add({L1: 'include "missing/file/with/a/long/name.theo" x := 1'}, L1)
+    add({L1: 'include "%s" x := $7' % L2, L2: "DEFINE m <ID> AS $3 END DEFINE m q"}, L1)
     return S
 
 
